@@ -31,9 +31,11 @@ type obs struct {
 	oldModel bool // the JSON view of the case is what Diff saw (one numeric type, no exotic leaves): DiffMerge/Model.v applies
 	skip     bool // nothing comparable (a failure was already reported)
 	nullKey  bool // an explicit nil "__key" occurs in the typed values
+	guides   []guideEntry // list diffs where the implementation's index list is not the model's own
 	// fuzz cases
 	fuzz       bool
 	jsCompared bool
+	wellFormed bool
 }
 
 func safeDiff(a, b interface{}) (d interface{}, p string) {
@@ -226,6 +228,15 @@ func main() {
 				}
 				o, n := genSpine(cr, d)
 				c = Case{Old: o, New: n, Origin: "deep"}
+			case k < 10:
+				// the new value is another view of a list of the old one (re-sliced or appended to in place)
+				if a, ok := genAlias(cr, old); ok {
+					_, n := applyAlias(old, *a)
+					nj, _ := roundTrip(n)
+					c = Case{Old: old, New: nj, Alias: a, Origin: "alias"}
+				} else {
+					c = Case{Old: old, New: mutate(cr, old, depth), Shared: true, Origin: "mutation"}
+				}
 			case k < 70:
 				c = Case{Old: old, New: mutate(cr, old, depth), Shared: true, Origin: "mutation"}
 			case k < 85:
@@ -237,8 +248,10 @@ func main() {
 				c.New = deepCopy(c.New)
 				c.Shared = false
 			}
-			c.IntTyped = cr.Chance(35)
-			if c.IntTyped {
+			c.IntTyped = c.Alias == nil && cr.Chance(35)
+			if c.Alias != nil {
+				// keeps float64 leaves: any conversion would copy the lists
+			} else if c.IntTyped {
 				c.NumType = numTypes[cr.Intn(len(numTypes))]
 				if !allFit(c.NumType, c.Old) || !allFit(c.NumType, c.New) {
 					c.NumType = "int64"
@@ -281,7 +294,11 @@ func main() {
 		}
 		old, nw := c.Old, c.New
 		ob.oldModel = true
-		if c.Typing != nil {
+		if c.Alias != nil {
+			old, nw = applyAlias(c.Old, *c.Alias)
+			run.Hist("alias:" + c.Alias.Op)
+			run.Hist("typing:float64")
+		} else if c.Typing != nil {
 			old, nw = applyTyping(*c.Typing, old, nw)
 			ob.oldModel = false
 			run.Hist("typing:" + c.Typing.Mode)
@@ -377,7 +394,8 @@ func main() {
 				fail("nil-delta-but-different", "")
 			}
 			if !ob.nullKey && keysComparable(old) && keysComparable(nw) {
-				if msg := checkDelta(old, nw, nil, "$root"); msg != "" {
+				w := &deltaWalk{}
+				if msg := w.checkDelta(old, nw, nil, "$root"); msg != "" {
 					run.Fail(idx, "delta-format", msg, c)
 				}
 			}
@@ -407,10 +425,21 @@ func main() {
 		if strings.Contains(js(rt), "\"$\":") {
 			run.Hist("delta:has-reorder")
 		}
+		if keysComparable(old) && keysComparable(nw) {
+			w := &deltaWalk{}
+			w.collect(old, nw, rt)
+			ob.guides = w.guides
+			if len(w.guides) > 0 {
+				run.Hist("index-lists-other-than-the-model's")
+				ob.oldModel = false // DiffMerge/Model.v has no guide; the generic model follows the implementation's lists
+			}
+		}
 		if !ob.nullKey && keysComparable(old) && keysComparable(nw) {
-			if msg := checkDelta(old, nw, rt, "$root"); msg != "" {
+			w := &deltaWalk{}
+			msg := w.checkDelta(old, nw, rt, "$root")
+			if msg != "" {
 				sig := "delta-format"
-				for _, s := range []string{"delta-not-minimal", "delta-not-local", "reorder-indices-not-per-spec", "reorder-runs-not-maximal"} {
+				for _, s := range []string{"delta-not-minimal", "delta-not-local", "reorder-indices-not-a-matching", "reorder-runs-not-maximal"} {
 					if strings.Contains(msg, s) {
 						sig = s
 					}
@@ -539,7 +568,9 @@ func main() {
 	}
 	for idx, ob := range all {
 		if ob.fuzz {
-			if ob.skip || !ob.jsSeen {
+			// behaviour on ill-formed deltas is unspecified (a merge may be hardened or relaxed without touching the
+			// property): only well-formed ones are compared with the model; the others are counted above
+			if ob.skip || !ob.jsSeen || !ob.wellFormed {
 				continue
 			}
 			goT := "None"
@@ -583,7 +614,7 @@ func main() {
 		if ob.hasDelta {
 			dT = "(Some " + coqWire(ob.delta) + ")"
 		}
-		gterms = append(gterms, fmt.Sprintf("(%d, mk_gcase %s %s %s %s %s %s)", idx, vh.CoqBool(fixed), coqTyped(ob.typedOld), coqTyped(ob.typedNew), dT, goT, jsT))
+		gterms = append(gterms, fmt.Sprintf("(%d, mk_gcase %s %s %s %s %s %s %s)", idx, vh.CoqBool(fixed), coqGuides(ob.guides), coqTyped(ob.typedOld), coqTyped(ob.typedNew), dT, goT, jsT))
 		flush(false)
 	}
 	flush(true)
@@ -626,6 +657,7 @@ func runFuzz(run *vh.Run, idx int, ob *obs, jsIn *bytes.Buffer, jsIdx *[]int) {
 func finishFuzz(run *vh.Run, idx int, ob *obs, jsOk interface{}, jsErr string) {
 	f := ob.c.Fuzz
 	wf := wellFormedDelta(f.Prev, f.Delta)
+	ob.wellFormed = wf
 	if wf {
 		run.Hist("fuzz:well-formed")
 		run.Count(js(f.Prev)+"|"+js(f.Delta), true)
@@ -652,6 +684,16 @@ func finishFuzz(run *vh.Run, idx int, ob *obs, jsOk interface{}, jsErr string) {
 		default:
 			run.Hist("fuzz:ill-formed:both-accept-different-values")
 		}
+	}
+	if strings.HasPrefix(ob.c.Origin, "corpus:") {
+		// the witnesses of clients_differ_on_ill_formed_deltas: what the two clients do with them is recorded, not enforced
+		cls := func(e string) string {
+			if e == "" {
+				return "accepts"
+			}
+			return "rejects"
+		}
+		run.Extra["witness:"+strings.TrimPrefix(ob.c.Origin, "corpus:")] = "merge.go " + cls(ob.goErr) + " (" + js(ob.goOut) + "), merge.ts " + cls(jsErr) + " (" + js(jsOk) + ")"
 	}
 	if jsErr == "" && jsComparable(f.Prev, f.Delta) {
 		ob.jsCompared = true
